@@ -22,7 +22,7 @@ LEVEL = {
  "C12": ("model_checking", "a POSIX-like file-system model with symlink resolution; the safe extractor keeps Contained for every package over a hostile alphabet while the naive one is refuted (its counterexamples are the minimal hostile packages); every model package is hand-encoded (ordinary, with the whole path as base name, and with absolute base names) and extracted by the real code in a scratch jail snapshotted before / after; benign packages must be recreated (model tree for generated ones, configuration for built ones).", "3.C12"),
  "C13": ("model_checking", "RpmVerCmp is rpm's algorithm in small-step and big-step form, model-checked against a second definition (token-key order) with antisymmetry/transitivity; the real Evr/Nevra ordering is recorded on the complete bounded domain plus seeded long strings and validated event by event by TLC.", "3.C13"),
  "C14": ("model_checking", "the sink protocol (Offer / Accept / Interrupted / Zero / Fail / Return) with its safety invariant is model-checked for the write_all design and refuted for the single-write design; the real Package::write / PackageMetadata::write run against scripted sinks with a failure at every offset and every chunking family, selected runs validated call by call by Trace_C14; parsing from chunked sources and truncation at every metadata offset.", "3.C14"),
- "C15": ("model_checking", "MC proves right-splitting unambiguous on real component values in the spec; the real Display/parse/normalised forms are recorded on the same complete bounded tuple domain, the asset NEVRAs, all compression types and seeded arbitrary strings, and validated by Trace_C15.", "3.C15"),
+ "C15": ("model_checking", "MC proves right-splitting unambiguous on real component values in the spec; the real Display/parse/normalised forms are recorded on the same complete bounded tuple domain, the asset NEVRAs, all compression types (in the harness's build and in a build of the library without optional features, harness-min) and seeded arbitrary strings, and validated by Trace_C15.", "3.C15"),
  "C16": ("model_checking", "layout algebra model-checked on a grid covering all residues mod 8 and discharged for all naturals by Apalache (LayoutInd); offsets reported by parsed and in-memory (built, signed, cleared, Header::clear'ed, re-written) packages are validated by Trace_Pkg against the layout derived from the written bytes' own intro fields.", "3.C16"),
  "C17": ("model_checking", "MustErr (destinations without a final file name) is stated in TLA+ and model-checked for closure; every destination over {/ . a b} up to length 6, capability texts, every codec with levels across and beyond its range (child process per case) and seeded metadata strings are run through the real builder and validated by Trace_C17 (no panic action exists in the spec).", "3.C17"),
  "C18": ("model_checking", "mode-word algebra model-checked on all 65 536 words; the real conversions are recorded for all words, all in-range negatives, all constructor arguments and all 2^32 integers (run-length encoded) and validated by Trace_C18.", "3.C18"),
